@@ -12,8 +12,9 @@
 (*          URI accepted  (+ cimobject = path without host)                *)
 (* stage 1: a single-symbol mutation (substitute / insert / delete) of the *)
 (*          printed URI: (iv) both parsers return a path or ValueError     *)
-(* With EMIT_FILE set, the universe with the printed texts and a set of    *)
-(* mutated texts are written as JSON for the harness.                      *)
+(* With EMIT_FILE set, the universe with the printed texts is written as   *)
+(* JSON for the harness (which concretises every path, and applies the     *)
+(* Mutations operator to the texts to drive the real parsers).             *)
 (***************************************************************************)
 EXTENDS WbemUri, Json, IOUtils, FiniteSetsExt
 
@@ -45,7 +46,7 @@ U1 == {Path(k, h # <<>>, h, n # <<>>, n, c, IF k = "inst" THEN One ELSE <<>>) :
 StrAlpha == {"a", "A", "dq", "bs", "com", "eq", "lf", "dot", "col", "sl",
              "sp", "N1", "sq"}
 Strings == UNION {[1..k -> StrAlpha] : k \in 0..StrLen}
-Special == {<<"DT">>, <<"DT", "a">>, <<"a", "DT">>,
+Special == {<<"DT">>, <<"DT", "a">>, <<"a", "DT">>, <<"DT", "lf">>,
             <<"a", "dot", "a", "eq", "N1">>,
             <<"sl", "col", "a", "dot", "a", "eq", "N1">>,
             <<"a", "col", "A", "dot", "a", "eq", "T">>,
@@ -193,15 +194,11 @@ ASSUME Exempt(<<"DT">>) /\ Exempt(<<"a", "dot", "a", "eq", "N1">>)
        /\ ~Exempt(<<"a", "lf">>) /\ ~Exempt(<<>>)
 
 (* ------------------------------ emission ------------------------------- *)
-EmitMut == UNION {Mutations(PrintU(V, q, f)) :
-                    q \in U1 \cup U4 \cup
-                          {x \in U2 \cup U3 : Len(PrintU(V, x, "standard")) < 14},
-                    f \in FmtsStdHist}
 ASSUME "EMIT_FILE" \notin DOMAIN IOEnv \/ IOEnv.EMIT_FILE = "" \/
        /\ JsonSerialize(IOEnv.EMIT_FILE,
-            [paths |-> SetToSeq({[p |-> q,
+            [paths |-> SetToSeq({[p |-> q, mut |-> q \in MutUniverse,
                                   text |-> [f \in AllFmts |-> PrintU(V, q, f)]] :
                                    q \in Universe}),
-             muts |-> SetToSeq(EmitMut)])
-       /\ PrintT(<<"EMITTED", Cardinality(Universe), Cardinality(EmitMut)>>)
+             mutsyms |-> SetToSeq(MutSyms)])
+       /\ PrintT(<<"EMITTED", Cardinality(Universe)>>)
 =============================================================================
